@@ -1038,3 +1038,140 @@ pub proof fn lemma_trak_roundtrip(d: Seq<u8>, p: int, b: TrakBox)
     lemma_trak_rel_3(d, p, b);
     lemma_trak_rel_4(d, p, b);
 }
+
+// ---- moov: mvhd, then the tracks (hand-written: induction over the track list)
+pub open spec fn moov_muxed(b: MoovBox) -> bool {
+    moov_wire(b) && b.mvex is None && forall|i: int| 0 <= i < b.traks@.len() ==> trak_muxed(#[trigger] b.traks@[i])
+}
+/// position of track i in the reference bytes written at p
+pub open spec fn moov_t(b: MoovBox, p: int, i: int) -> int { p + 8 + mvhd_len(b.mvhd) + traks_len(b.traks@, i) }
+pub open spec fn moov_track_boxes(s: Seq<u8>, p: int, b: MoovBox) -> bool {
+    forall|i: int| 0 <= i < b.traks@.len() ==> box_here(s, #[trigger] moov_t(b, p, i), trak_len(b.traks@[i]), 0x7472616b)
+}
+pub proof fn lemma_traks_bytes_mono(v: Seq<TrakBox>, j: int, k: int)
+    requires 0 <= j <= k <= v.len()
+    ensures is_prefix(traks_bytes(v, j), traks_bytes(v, k))
+    decreases k
+{
+    if j < k { lemma_traks_bytes_mono(v, j, k - 1); }
+}
+pub proof fn lemma_prefix_left(a: Seq<u8>, x: Seq<u8>, y: Seq<u8>)
+    requires is_prefix(x, y)
+    ensures is_prefix(a + x, a + y)
+{
+    assert forall|i: int| 0 <= i < (a + x).len() implies (a + x)[i] == (a + y)[i] by {
+        if i >= a.len() { assert((a + x)[i] == x[i - a.len()]); assert((a + y)[i] == y[i - a.len()]); }
+    }
+}
+#[verifier::rlimit(200)]
+pub proof fn lemma_moov_trak(d: Seq<u8>, p: int, b: MoovBox, i: int)
+    requires 0 <= p, moov_muxed(b), 0 <= i < b.traks@.len()
+    ensures ({ let s = wr(d, p, moov_bytes(b)); let c = moov_t(b, p, i); let x = b.traks@[i];
+               box_here(s, c, trak_len(x), 0x7472616b) && trak_at(s, c + 8, trak_len(x) as u64, trak_norm(x)) })
+{
+    let v = b.traks@; let n = v.len() as int; let x = v[i];
+    let all = moov_bytes(b); let s = wr(d, p, all); let c = moov_t(b, p, i);
+    assert(trak_muxed(x));
+    lemma_moov_bytes_len(b);
+    lemma_traks_bytes_len(v, i);
+    lemma_trak_pre(x);
+    lemma_trak_starts(x);
+    let pre = moov_head(b) + traks_bytes(v, i);
+    assert(all =~= moov_head(b) + traks_bytes(v, n));
+    assert(pre + trak_bytes(x) =~= moov_head(b) + traks_bytes(v, i + 1));
+    lemma_traks_bytes_mono(v, i + 1, n);
+    lemma_prefix_left(moov_head(b), traks_bytes(v, i + 1), traks_bytes(v, n));
+    lemma_child_placed(d, p, all, pre, trak_bytes(x), trak_len(x), 0x7472616b);
+    lemma_trak_roundtrip(s, c, x);
+}
+#[verifier::rlimit(200)]
+pub proof fn lemma_moov_mvhd(d: Seq<u8>, p: int, b: MoovBox)
+    requires 0 <= p, moov_muxed(b)
+    ensures ({ let s = wr(d, p, moov_bytes(b)); box_here(s, p + 8, mvhd_len(b.mvhd), 0x6d766864) && mvhd_at(s, p + 8, b.mvhd)
+               && box_here(s, p, moov_len(b), 0x6d6f6f76) })
+{
+    broadcast use lemma_be_bytes_len;
+    let v = b.traks@; let n = v.len() as int;
+    let all = moov_bytes(b); let s = wr(d, p, all);
+    let h = hdr_bytes(moov_len(b) as u64, 0x6d6f6f76);
+    lemma_moov_bytes_len(b);
+    lemma_mvhd_pre_len(b.mvhd);
+    lemma_mvhd_starts(b.mvhd);
+    assert(all =~= (h + mvhd_bytes(b.mvhd)) + traks_bytes(v, n));
+    lemma_prefix_concat(h + mvhd_bytes(b.mvhd), traks_bytes(v, n));
+    lemma_child_placed(d, p, all, h, mvhd_bytes(b.mvhd), mvhd_len(b.mvhd), 0x6d766864);
+    lemma_mvhd_roundtrip(s, p + 8, b.mvhd);
+    lemma_prefix_concat(h, mvhd_bytes(b.mvhd));
+    lemma_prefix_trans(h, h + mvhd_bytes(b.mvhd), all);
+    lemma_hdr_of_bytes(d, p, all, moov_len(b), 0x6d6f6f76);
+}
+/// the walk over the run of track boxes leaves every other type's accumulator alone ...
+pub proof fn lemma_moov_walk_other(s: Seq<u8>, p: int, b: MoovBox, k: int, ty: BoxType, acc: Option<int>)
+    requires moov_muxed(b), moov_track_boxes(s, p, b), 0 <= k <= b.traks@.len(), ty != BoxType::TrakBox
+    ensures last_of_m(s, moov_t(b, p, k), moov_t(b, p, b.traks@.len() as int), ty, acc) == acc
+    decreases b.traks@.len() - k
+{
+    let n = b.traks@.len() as int;
+    if k < n {
+        assert(trak_wire(b.traks@[k]));
+        lemma_box_here(s, moov_t(b, p, k), trak_len(b.traks@[k]), 0x7472616b);
+        assert(moov_t(b, p, k + 1) == moov_t(b, p, k) + trak_len(b.traks@[k]));
+        lemma_traks_len_mono(b.traks@, k + 1, n);
+        lemma_moov_walk_other(s, p, b, k + 1, ty, acc);
+    }
+}
+/// ... and collects the positions of the tracks in order
+pub open spec fn moov_offs(b: MoovBox, p: int, k: int) -> Seq<int> { Seq::new((b.traks@.len() - k) as nat, |j: int| moov_t(b, p, k + j)) }
+pub proof fn lemma_moov_walk_traks(s: Seq<u8>, p: int, b: MoovBox, k: int, acc: Seq<int>)
+    requires moov_muxed(b), moov_track_boxes(s, p, b), 0 <= k <= b.traks@.len()
+    ensures all_of_m(s, moov_t(b, p, k), moov_t(b, p, b.traks@.len() as int), BoxType::TrakBox, acc) == acc + moov_offs(b, p, k)
+    decreases b.traks@.len() - k
+{
+    let n = b.traks@.len() as int;
+    if k < n {
+        assert(trak_wire(b.traks@[k]));
+        lemma_box_here(s, moov_t(b, p, k), trak_len(b.traks@[k]), 0x7472616b);
+        assert(moov_t(b, p, k + 1) == moov_t(b, p, k) + trak_len(b.traks@[k]));
+        lemma_traks_len_mono(b.traks@, k + 1, n);
+        lemma_moov_walk_traks(s, p, b, k + 1, acc.push(moov_t(b, p, k)));
+        assert(acc.push(moov_t(b, p, k)) + moov_offs(b, p, k + 1) =~= acc + moov_offs(b, p, k));
+    } else {
+        assert(acc + moov_offs(b, p, k) =~= acc);
+    }
+}
+/// what the reader's relation says about a movie box b2 that is b with every track normalised (9.2: avcC length size)
+pub open spec fn moov_same_norm(b: MoovBox, b2: MoovBox) -> bool {
+    &&& b2.mvhd == b.mvhd && b2.mvex is None && b2.meta is None && b2.udta is None
+    &&& b2.traks@.len() == b.traks@.len() && forall|i: int| 0 <= i < b.traks@.len() ==> #[trigger] b2.traks@[i] == trak_norm(b.traks@[i])
+}
+#[verifier::rlimit(300)]
+pub proof fn lemma_moov_roundtrip(d: Seq<u8>, p: int, b: MoovBox, b2: MoovBox)
+    requires 0 <= p, moov_muxed(b), moov_same_norm(b, b2)
+    ensures moov_at(wr(d, p, moov_bytes(b)), p + 8, moov_len(b) as u64, b2), box_here(wr(d, p, moov_bytes(b)), p, moov_len(b), 0x6d6f6f76)
+{
+    let s = wr(d, p, moov_bytes(b)); let n = b.traks@.len() as int;
+    let q = p + 8; let end = p + moov_len(b);
+    lemma_moov_mvhd(d, p, b);
+    assert forall|i: int| 0 <= i < n implies box_here(s, #[trigger] moov_t(b, p, i), trak_len(b.traks@[i]), 0x7472616b)
+        && trak_at(s, moov_t(b, p, i) + 8, trak_len(b.traks@[i]) as u64, trak_norm(b.traks@[i])) by { lemma_moov_trak(d, p, b, i); }
+    assert(moov_track_boxes(s, p, b));
+    lemma_box_here(s, q, mvhd_len(b.mvhd), 0x6d766864);
+    assert(end == moov_t(b, p, n) && q + mvhd_len(b.mvhd) == moov_t(b, p, 0));
+    lemma_traks_len_mono(b.traks@, 0, n);
+    assert forall|i: int| 0 <= i < n implies trak_len(#[trigger] b.traks@[i]) >= 0 by { assert(trak_wire(b.traks@[i])); }
+    // the first child is mvhd; then the tracks
+    lemma_moov_walk_other(s, p, b, 0, BoxType::MvhdBox, Some(q));
+    lemma_moov_walk_other(s, p, b, 0, BoxType::MvexBox, None);
+    lemma_moov_walk_other(s, p, b, 0, BoxType::MetaBox, None);
+    lemma_moov_walk_other(s, p, b, 0, BoxType::UdtaBox, None);
+    lemma_moov_walk_traks(s, p, b, 0, Seq::empty());
+    assert(Seq::<int>::empty() + moov_offs(b, p, 0) =~= moov_offs(b, p, 0));
+    assert(child_at_m(s, q, moov_len(b) as u64, BoxType::MvhdBox) == Some(q));
+    assert(child_at_m(s, q, moov_len(b) as u64, BoxType::MvexBox) is None);
+    assert(child_at_m(s, q, moov_len(b) as u64, BoxType::MetaBox) is None);
+    assert(child_at_m(s, q, moov_len(b) as u64, BoxType::UdtaBox) is None);
+    assert(all_of_m(s, q, end, BoxType::TrakBox, Seq::empty()) == moov_offs(b, p, 0));
+    assert forall|i: int| 0 <= i < n implies trak_at(s, child_q(s, moov_offs(b, p, 0)[i]), child_size(s, moov_offs(b, p, 0)[i]), #[trigger] b2.traks@[i]) by {
+        lemma_box_here(s, moov_t(b, p, i), trak_len(b.traks@[i]), 0x7472616b);
+    }
+}
